@@ -28,7 +28,8 @@ func (c *ConfSpec) parentOf(path string) *QSpec {
 func (c *ConfSpec) effMax(path string) Res {
 	eff := Res{}
 	for _, qp := range ancestors(path) {
-		if q := c.Find(qp); q != nil {
+		// a maximum without any positive quantity is no maximum at all (the core ignores it)
+		if q := c.Find(qp); q != nil && !q.Max.IsZero() {
 			for k, v := range q.Max {
 				if cur, ok := eff[k]; !ok || v < cur {
 					eff[k] = v
@@ -105,6 +106,36 @@ func (s *Sim) mutateConf() *ConfSpec {
 				n = r.Range(0, 1)
 				break
 			}
+		}
+	}
+	// directed: an existing maximum gains (or loses) one explicit zero and changes in nothing else
+	if r.Bool(0.12) {
+		var withMax []string
+		for _, path := range c.allQueues() {
+			if q := c.Find(path); path != "root" && len(q.Max) > 0 {
+				withMax = append(withMax, path)
+			}
+		}
+		if len(withMax) > 0 {
+			q := c.Find(pick(r, withMax))
+			flipped := false
+			for _, t := range resTypes {
+				if v, ok := q.Max[t]; ok && v == 0 && r.Bool(0.5) {
+					delete(q.Max, t)
+					flipped = true
+					break
+				}
+			}
+			if !flipped {
+				for _, t := range []string{"gpu", "memory", "vcore"} {
+					if _, ok := q.Max[t]; !ok {
+						q.Max[t] = 0
+						break
+					}
+				}
+			}
+			s.probe("reload_explicit_zero_max")
+			n = r.Range(0, 1)
 		}
 	}
 	// directed: a parent with live applications below it is redefined as a leaf
@@ -555,10 +586,18 @@ func (s *Sim) oracleC16(op Op, evs []SIEvent) {
 		}
 		if path != "root" {
 			wantMax := spec.Max
-			if wantMax == nil {
+			if wantMax == nil || wantMax.IsZero() {
+				// a maximum without any positive quantity is no maximum at all (the core ignores it)
 				wantMax = Res{}
 			}
-			if !q.Max.Eq(wantMax) || (spec.Max != nil) != q.HasMax && len(spec.Max) > 0 {
+			// a maximum names its types: "gpu: 0" forbids the type, leaving it out does not limit it
+			sameTypes := len(q.Max) == len(wantMax)
+			for t := range wantMax {
+				if _, ok := q.Max[t]; !ok {
+					sameTypes = false
+				}
+			}
+			if !q.Max.Eq(wantMax) || !sameTypes || (len(wantMax) > 0) != q.HasMax && len(wantMax) > 0 {
 				s.violate("C16", "queue-max", "", "queue %s reports maximum %s, the active configuration says %s", path, q.Max, spec.Max)
 			}
 			wantG := spec.Guar
